@@ -13,5 +13,6 @@ def run(ctx):
 
     crosscheck_sym.guard(ctx)  # the symbolic-shape tensor layer against real torch, before the clauses that rest on it
     api.run_vcs(ctx, C08_vc.vcs(ctx), {"C08.P.draw_bounds": "spec_augment_draw_parameters: every drawn width/count/start/centre/shift respects the absolute and length-proportional limits, for all lengths, T, F, limits and uniform draws in [0,1)"})
+    api.run_vcs(ctx, C08_vc.forward_vcs(ctx), {"C08.P.forward_composes": "real SpecAugment.forward source with draw_parameters / apply_parameters under contract, SYMBOLIC batch size and frames: training mode returns apply_parameters(feats, draw_parameters(feats, lengths), lengths) on the very tensors given (omitted lengths = every frame of every element), evaluation mode returns the input and draws nothing"})
     api.run_vcs(ctx, C08_vc.apply_vcs(ctx), {"C08.P.apply_masks": "spec_augment_apply_parameters without warps for SYMBOLIC batch size, frames, coefficients and numbers of masks: an entry is zeroed exactly when a time mask covers its frame or a frequency mask covers its coefficient, every other entry is the input's; shape preserved"})
     C08_rt.run_bounded(ctx)
